@@ -171,10 +171,16 @@ fn observe_poling(i: usize, tag: &str, s: &Setup) {
   let length = met(cs.length);
   let sign = if z0v < 0.0 { Sign::NEGATIVE } else { Sign::POSITIVE };
   let guess = (2.0 * PI / z0v).abs();
+  let zero_index = std::cell::Cell::new(false);
   let cost = |period: f64| {
     let pp = PeriodicPoling::On { period: period * M, sign, apodization: Apodization::Off };
     match dkz(signal, pump, cs, &pp) {
-      Ok((z, _)) => z.abs(),
+      Ok((z, idl)) => {
+        if !(*idl.refractive_index(idl.frequency(), cs) > 0.0) {
+          zero_index.set(true);
+        }
+        z.abs()
+      }
       Err(_) => f64::NAN,
     }
   };
@@ -207,7 +213,7 @@ fn observe_poling(i: usize, tag: &str, s: &Setup) {
     "replica": {"g0": fx(guess), "g1": fx(guess + 1e-6), "max_iter": 1000, "min": fx(f64::MIN_POSITIVE), "max": fx(length), "tol": fx(1e-12),
                 "result": match &r_rep { Ok(x) => json!({"ok": true, "x": fx(*x)}), Err(m) => json!({"ok": false, "panic": m}) },
                 "table": table_json(&table)},
-    "residual": residual,
+    "residual": residual, "zero_index_during_search": zero_index.get(),
   }));
 }
 
